@@ -171,7 +171,8 @@ fn len_class(n: usize) -> &'static str {
         1 => "1",
         2..=135 => "<rate",
         136 => "=rate",
-        137..=255 => ">rate",
+        137..=254 => ">rate",
+        255 => "255",
         _ => "multi",
     }
 }
@@ -305,6 +306,8 @@ fn push_units(units: &mut Vec<Unit>, set_idx: usize, info: &SetInfo, t: &Tuple, 
     let mut first = true;
     let ranges: Vec<(Artefact, usize, usize)> = if stratum == "full" {
         [Artefact::Sig, Artefact::Pk, Artefact::Msg, Artefact::Ctx].iter().map(|a| (*a, 0, art_bits(info, t, *a))).collect()
+    } else if stratum == "longmsg" {
+        vec![(Artefact::Msg, 0, art_bits(info, t, Artefact::Msg)), (Artefact::Ctx, 0, art_bits(info, t, Artefact::Ctx))]
     } else {
         // hint stratum: commitment hash and the whole hint section of many more signatures
         vec![(Artefact::Sig, 0, 8 * info.ctilde_len), (Artefact::Sig, 8 * info.hint_start(), 8 * info.sig_len)]
@@ -326,12 +329,15 @@ pub fn run(ctx: &Ctx) -> i32 {
         Tier::Quick => (1, ctx.scaled(48)),
         Tier::Thorough => (ctx.scaled(8), ctx.scaled(1500)),
     };
-    let msg_lens = [1usize, 8, 135, 136, 137, 300];
-    let ctx_lens = [1usize, 32, 255];
+    let msg_lens = [1usize, 8, 135, 136, 137, 168, 169, 300];
+    // every context-length class (incl. the two longest legal ones) occurs for every set
+    let ctx_lens = [255usize, 1, 254, 32];
     let provs = [PkProv::Generated, PkProv::RoundTripped, PkProv::Derived];
+    let long_len: usize = match ctx.tier { Tier::Quick => 1100, Tier::Thorough => 5000 };
     let mut units: Vec<Unit> = Vec::new();
     let mut n_full = 0u64;
     let mut n_hint = 0u64;
+    let mut n_long = 0u64;
     for (si, set) in all.iter().enumerate() {
         let info = set.info();
         for (mi, mode) in MODES.iter().enumerate() {
@@ -341,12 +347,19 @@ pub fn run(ctx: &Ctx) -> i32 {
                     mode: *mode,
                     xi: p.array32(),
                     rnd: p.array32(),
-                    msg: { let n = msg_lens[(mi + v as usize + p.usize_below(msg_lens.len())) % msg_lens.len()]; p.bytes(n) },
-                    ctx: { let n = *p.pick(&ctx_lens); p.bytes(n) },
+                    msg: { let n = msg_lens[(si * 3 + mi * 2 + v as usize) % msg_lens.len()]; p.bytes(n) },
+                    ctx: { let n = ctx_lens[(si + mi + v as usize) % ctx_lens.len()]; p.bytes(n) },
                     prov: provs[(si + mi + v as usize) % 3],
                 };
                 push_units(&mut units, si, info, &t, "full");
                 n_full += 1;
+            }
+            // long multi-block message: every message bit (pre-hash and SHAKE256 absorb paths)
+            if ctx.tier == Tier::Thorough || mi == (si + 1) % 4 || mi == (si + 3) % 4 {
+                let mut p = Prng::for_run(ctx.seed, &format!("c05-long-{}-{}", info.name, mode.name()), 0);
+                let t = Tuple { mode: *mode, xi: p.array32(), rnd: p.array32(), msg: p.bytes(long_len), ctx: p.bytes(3), prov: provs[mi % 3] };
+                push_units(&mut units, si, info, &t, "longmsg");
+                n_long += 1;
             }
         }
         for v in 0..hint_per_set {
@@ -411,15 +424,16 @@ pub fn run(ctx: &Ctx) -> i32 {
         level: "fault_enumeration",
         evaluations: evals,
         signatures: sigs.into_iter().collect(),
-        rule: "For each seeded honest tuple (set, mode, xi, rnd, message, context, verifier-key provenance) that verifies: stratum `full` flips EVERY bit of the signature, of the serialised public key, of the message and of the context, one at a time; stratum `hint` flips every bit of the commitment hash and of the whole hint section (index bytes, zero padding, count bytes) on many more signatures. Oracle: verification returns false (a public key that no longer deserialises counts as rejected; a panic counts as not returning false). A case is distinct by (set, mode, provenance, artefact, region of the flipped bit, whether a restated Algorithm 21 says the flip is rejected by decoding or only by the commitment hash, message/context length class).".into(),
+        rule: "For each seeded honest tuple (set, mode, xi, rnd, message, context, verifier-key provenance) that verifies: stratum `full` flips EVERY bit of the signature, of the serialised public key, of the message and of the context, one at a time; stratum `longmsg` flips every bit of a multi-block message (1100 bytes quick, 5000 thorough); stratum `hint` flips every bit of the commitment hash and of the whole hint section (index bytes, zero padding, count bytes) on many more signatures. Oracle: verification returns false (a public key that no longer deserialises counts as rejected; a panic counts as not returning false). A case is distinct by (set, mode, provenance, artefact, region of the flipped bit, whether a restated Algorithm 21 says the flip is rejected by decoding or only by the commitment hash, message/context length class).".into(),
         samples,
         exhaustive: false,
         extra: json!({
             "per_tuple_fault_space_enumerated_completely": !subsampled,
             "tuples_full": n_full,
             "tuples_hint_stratum": n_hint,
+            "tuples_long_message_stratum": n_long,
             "tuples_unverifiable_skipped": unverifiable,
-            "runs": n_full + n_hint,
+            "runs": n_full + n_hint + n_long,
             "runs_per_hour": if wall > 0.0 { ((n_full + n_hint) as f64 / wall * 3600.0) as u64 } else { 0 },
             "faults_fired": {"bitflip": evals},
             "faults_configured": {"bitflip": evals},
